@@ -63,6 +63,15 @@ func genC19Load(t *rapid.T) c19LoadCase {
 			doc["version"] = "2.4"
 			doc["name"] = "named"
 		}
+		// typed attributes given as strings (quoted, or through a variable): the loads convert them with a table
+		// they all share, at paths (service names) no earlier load of the process has seen
+		if rapid.IntRange(0, 1).Draw(t, "typed-strings") == 0 {
+			svcs := doc["services"].(map[string]any)
+			name := fmt.Sprintf("typed-%d-%s", i, rapid.StringMatching("[a-z]{6}").Draw(t, "typedname"))
+			svcs[name] = map[string]any{"image": "busybox", "privileged": "${FLAG:-true}", "init": "true", "cpu_shares": "${SHARES:-5}", "read_only": "yes",
+				"healthcheck": map[string]any{"test": []any{"CMD", "true"}, "retries": "3"}, "ports": []any{map[string]any{"target": "${PORT:-80}", "published": "8080"}},
+				"ulimits": map[string]any{"nofile": map[string]any{"soft": "${SOFT:-10}", "hard": "20"}}, "deploy": map[string]any{"replicas": "2"}}
+		}
 		// an extension for which the caller registered a Go type (the prototype is shared by all loads)
 		known := rapid.SampledFrom([]string{"", "", "value", "pointer"}).Draw(t, "known-extension")
 		if known != "" {
